@@ -496,6 +496,13 @@ func dequeNonEmptyProv(c *Ctx, fn *ssa.Function, b *ssa.BasicBlock, idx int, rec
 			continue
 		}
 		gEnv = cf.env()
+		// <deque>.back != -1: the definition of "holds items" that Len() itself rests on (Len() > 0 ⇔ a != nil ∧ back != -1)
+		if cf.op == token.NEQ && isConstInt(cf.y, -1) {
+			bp := valueProv(cf.x, gEnv)
+			if len(bp.fields) >= 1 && bp.fields[len(bp.fields)-1] == "back" && (prov{root: bp.root, fields: bp.fields[:len(bp.fields)-1]}).String() == rp {
+				return true
+			}
+		}
 		x, y, op := cf.x, cf.y, cf.op
 		if isLen(y) {
 			x, y, op = y, x, flip(op)
